@@ -772,6 +772,15 @@ def check_slots(ctx):
             if [got(s, occ=False) for s in back] != nref:
                 ctx.violation('slot-indices|convert_slots_to_old|%s' % forms,
                               '%s -> %s' % (nref, back), replay)
+            # the new form as it arrives in another component: plain dicts
+            # (as_dict / msgpack), still marked as new-format slots
+            wired = seams.wire(ru.as_dict(new))
+            back_w = convert_slots_to_old(copy.deepcopy(wired))
+            if [got(s, occ=False) for s in back_w] != nref:
+                ctx.violation('slot-indices|convert_slots_to_old|wire:%s'
+                              % forms, 'new slots after as_dict/msgpack %s -> '
+                              '%s, expected %s' % (wired, back_w, nref),
+                              replay)
             # old input to to_old is returned unchanged
             same = convert_slots_to_old(back)
             if same != back:
